@@ -1175,6 +1175,17 @@ class Interp:
         if name == "ravel":
             v = args[0] if isinstance(args[0], np.ndarray) else _obj_array(args[0])
             return v.ravel()
+        if name in ("cumsum", "cumprod"):
+            v = args[0] if isinstance(args[0], np.ndarray) else _obj_array(args[0])
+            if v.ndim != 1:
+                raise Undecided(f"np.{name} of a matrix")
+            out, acc = [], None
+            for x in v:
+                acc = x if acc is None else (acc + x if name == "cumsum" else acc * x)
+                out.append(acc)
+            if out and all(isinstance(x, (int, np.integer)) for x in out):
+                return np.array([int(x) for x in out], dtype=int)
+            return arr(out)
         if name == "clip":
             v = args[0] if isinstance(args[0], np.ndarray) else _obj_array(args[0])
             lo = kw.get("a_min", kw.get("min", args[1] if len(args) > 1 else None))
